@@ -45,8 +45,6 @@ class AllocatorAwarePointer
 
     Impl impl_;
 
-    constexpr auto allocate() { return AllocatorTraits::allocate(get_allocator(), size()); }
-
     constexpr void deallocate() noexcept
     {
         if (get())
@@ -109,9 +107,10 @@ class AllocatorAwarePointer
                 if (get_allocator() != other.get_allocator())
                 {
                     deallocate();
+                    release();  // stay empty if the allocation below throws
                     propagate_on_container_copy_assignment(other);
+                    get() = AllocatorTraits::allocate(get_allocator(), other.size());
                     size() = other.size();
-                    get() = allocate();
                     return *this;
                 }
             }
@@ -119,8 +118,9 @@ class AllocatorAwarePointer
             if (size() < other.size() || !get())
             {
                 deallocate();
+                release();  // stay empty if the allocation below throws
+                get() = AllocatorTraits::allocate(get_allocator(), other.size());
                 size() = other.size();
-                get() = allocate();
             }
         }
         return *this;
